@@ -24,6 +24,9 @@ pub struct Ref {
     pub match_at: Option<usize>,
     /// source position of the element the first match stems from
     pub match_src_pos: Option<usize>,
+    /// for short-circuit terminals with a match: how many entries of `calls` a lazy sequential execution
+    /// performs before it stops (it stops inside the element that yields the match)
+    pub seq_calls_len: Option<usize>,
     /// number of tokens the full evaluation creates (work estimate)
     pub work: u64,
     /// clones performed by the source adaptor (SliceCloned): ids cloned
@@ -39,8 +42,20 @@ fn src_elem(scn: &Scenario, i: usize) -> RTok {
     RTok::leaf(src_id(i), val)
 }
 
-fn push_through(scn: &Scenario, x: RTok, pos: usize, level: usize, out: &mut Vec<(usize, RTok)>, calls: &mut Vec<CallRec>, work: &mut u64) {
+/// state of the depth-first evaluation
+struct Eval<'a> {
+    scn: &'a Scenario,
+    is_match: &'a dyn Fn(&RTok) -> bool,
+    /// number of calls a lazy sequential execution has made when it meets the first match
+    stop_calls: Option<usize>,
+}
+
+fn push_through(ev: &mut Eval, x: RTok, pos: usize, level: usize, out: &mut Vec<(usize, RTok)>, calls: &mut Vec<CallRec>, work: &mut u64) {
+    let scn = ev.scn;
     if level == scn.ops.len() {
+        if ev.stop_calls.is_none() && (ev.is_match)(&x) {
+            ev.stop_calls = Some(calls.len());
+        }
         out.push((pos, x));
         return;
     }
@@ -50,11 +65,11 @@ fn push_through(scn: &Scenario, x: RTok, pos: usize, level: usize, out: &mut Vec
     match op {
         Op::Map { .. } => {
             *work += 1;
-            push_through(scn, map_fn(stage, op, x), pos, level + 1, out, calls, work)
+            push_through(ev, map_fn(stage, op, x), pos, level + 1, out, calls, work)
         }
         Op::Filter { .. } => {
             if filter_fn(op, &x) {
-                push_through(scn, x, pos, level + 1, out, calls, work)
+                push_through(ev, x, pos, level + 1, out, calls, work)
             }
         }
         Op::FlatMap { .. } => {
@@ -62,14 +77,14 @@ fn push_through(scn: &Scenario, x: RTok, pos: usize, level: usize, out: &mut Vec
             for j in 0..n {
                 calls.push((stage + INNER, x.id, j as u64));
                 *work += 1;
-                push_through(scn, flatmap_child(stage, &x, j), pos, level + 1, out, calls, work);
+                push_through(ev, flatmap_child(stage, &x, j), pos, level + 1, out, calls, work);
             }
             calls.push((stage + INNER, x.id, u64::MAX));
         }
         Op::FilterMap { .. } => {
             if let Some(y) = filtermap_fn(stage, op, x) {
                 *work += 1;
-                push_through(scn, y, pos, level + 1, out, calls, work)
+                push_through(ev, y, pos, level + 1, out, calls, work)
             }
         }
     }
@@ -104,8 +119,12 @@ pub fn reference(scn: &Scenario) -> Ref {
     let mut consumed = 0;
     let mut match_at = None;
     let mut match_src_pos = None;
-    // calls and consumption as seen by a sequential, lazy, short-circuiting execution
-    let mut seq_calls_len = None;
+    let never = |_: &RTok| false;
+    let mut ev = Eval {
+        scn,
+        is_match: if short { &is_match } else { &never },
+        stop_calls: None,
+    };
     for i in 0..n {
         let mut x = src_elem(scn, i);
         work += 1;
@@ -119,20 +138,19 @@ pub fn reference(scn: &Scenario) -> Ref {
             _ => {}
         }
         let before = finals.len();
-        push_through(scn, x, i, 0, &mut finals, &mut calls, &mut work);
+        push_through(&mut ev, x, i, 0, &mut finals, &mut calls, &mut work);
         consumed = i + 1;
         if short && match_at.is_none() {
             if let Some(k) = (before..finals.len()).find(|&k| is_match(&finals[k].1)) {
                 match_at = Some(k);
                 match_src_pos = Some(i);
-                seq_calls_len = Some(calls.len());
                 if scn.src == Src::IterEndless {
                     break;
                 }
             }
         }
     }
-    let _ = seq_calls_len;
+    let seq_calls_len = ev.stop_calls;
 
     let value = match &scn.term {
         Term::CollectVec | Term::Collect => Value::Seq(finals.iter().map(|x| x.1).collect()),
@@ -163,6 +181,7 @@ pub fn reference(scn: &Scenario) -> Ref {
         value,
         match_at,
         match_src_pos,
+        seq_calls_len,
         work,
         clones,
     }
